@@ -1471,6 +1471,14 @@ static void DecodeDC(Word Index) {
                 if (mFirstPassUnknown(t.Flags) && t.Typ == TempInt) {
                     t.Contents.Int &= 65535;
                 }
+                if (SetMaxCodeLen(
+                            2
+                            * (CodeLen
+                               + ((t.Typ == TempString) ? t.Contents.str.len : 1)))) {
+                    WrError(ErrNum_CodeOverflow);
+                    OK = False;
+                    continue;
+                }
                 switch (t.Typ) {
                 case TempInt:
                 ToInt:
